@@ -61,14 +61,12 @@ func (sfc *StructFieldsCopy) Frag(ctx context.Context) iter.Seq[string] {
 }
 
 func (sfc *StructFieldsCopy) createFieldSnippet(f *types.Var) snippet.Snippet {
-	fieldType := f.Type()
+	// the type the field is declared with: an alias keeps its name in the generated make(...)
+	declared := f.Type()
 
-	// a field declared through an alias of a named type is copied like a field of that named type
-	if named, ok := types.Unalias(fieldType).(*types.Named); ok {
-		fieldType = named
-	}
-
-	switch x := fieldType.(type) {
+	// a field declared through an alias is copied like a field of the type the alias denotes (the two are identical
+	// types): an alias of a map or slice type must not fall through to the assignment, which would share the container
+	switch x := types.Unalias(declared).(type) {
 	case *types.Named:
 		var fc *FieldContext
 
@@ -157,7 +155,7 @@ if in.@fieldName != nil {
 	}
 }
 `, snippet.Args{
-			"MapType":   snippet.ID(x),
+			"MapType":   snippet.ID(declared),
 			"fieldName": snippet.ID(f.Name()),
 		})
 	case *types.Slice:
@@ -168,7 +166,7 @@ if in.@fieldName != nil {
 	copy(*o, *i)
 }
 `, snippet.Args{
-			"SliceType": snippet.ID(x),
+			"SliceType": snippet.ID(declared),
 			"fieldName": snippet.ID(f.Name()),
 		})
 	default:
